@@ -11,8 +11,8 @@ _OUTSIDE = ("more cycles / primitives per cycle / keys; element types other than
 reg("C20",
     name="C20_delta", src="harness/C20_delta.cpp",
     anchor_files=_ANCHORS,
-    quick=dict(defs=dict(NCYC=3, NPRIM=2, NPRIM5=1, NKEYS=2), symx=dict(shards=16, **{"max-wall": 900, "shard-depth": 8})),
-    thorough=dict(defs=dict(NCYC=3, NPRIM=2, NPRIM5=1, NKEYS=3), symx=dict(shards=16, **{"max-wall": 3000, "shard-depth": 10})),
+    quick=dict(defs=dict(NCYC=3, NPRIM=2, NPRIM5=1, NKEYS=2), symx=dict(shards=16, **{"max-wall": 2400, "shard-depth": 3})),
+    thorough=dict(defs=dict(NCYC=3, NPRIM=2, NPRIM5=1, NKEYS=3), symx=dict(shards=16, **{"max-wall": 3000, "shard-depth": 3})),
     reach=["end", "two_ticks", "gap_then_tick", "key_removed", "key_removed_and_readded_same_cycle", "key_added_and_removed_same_cycle",
            "empty_structural_tick", "child_only_tick", "class_empty_delta_on_valid_collection", "class_unticked_collection_field"],
     bounds="unit level, no graph: two real TSOutputs A (original) and B (copy) of one schema from " + _SHAPES + ", each observed through a bound TSInput; NCYC cycles at "
@@ -26,7 +26,7 @@ reg("C20",
 reg("C20",
     name="C20_delta_long", src="harness/C20_delta.cpp", tiers=("thorough",),
     anchor_files=_ANCHORS,
-    thorough=dict(defs=dict(NCYC=5, NPRIM=1, NPRIM5=1, NKEYS=2), symx=dict(shards=16, **{"max-wall": 3000, "shard-depth": 10})),
+    thorough=dict(defs=dict(NCYC=5, NPRIM=1, NPRIM5=1, NKEYS=2), symx=dict(shards=16, **{"max-wall": 3000, "shard-depth": 3})),
     reach=["end", "two_ticks", "gap_then_tick", "key_removed", "empty_structural_tick", "child_only_tick"],
     bounds="as C20_delta with 5 cycles and one key-set primitive per collection per cycle (longer histories: removal then gap then re-add, several gaps)",
     outside=_OUTSIDE,
@@ -40,8 +40,8 @@ _GRAPH_BOUNDS = ("real graph replay_impl<S>('in') -> dense_record_impl('out') (n
 reg("C20",
     name="C20_graph", src="harness/C20_graph.cpp",
     anchor_files=_GRAPH_ANCHORS,
-    quick=dict(defs=dict(NCYC=3, NPRIM=1, NPRIM5=1, NKEYS=2), symx=dict(shards=16, **{"max-wall": 900, "shard-depth": 8})),
-    thorough=dict(defs=dict(NCYC=3, NPRIM=2, NPRIM5=1, NKEYS=2), symx=dict(shards=16, **{"max-wall": 3000, "shard-depth": 10})),
+    quick=dict(defs=dict(NCYC=3, NPRIM=1, NPRIM5=1, NKEYS=2), symx=dict(shards=16, **{"max-wall": 2400, "shard-depth": 3})),
+    thorough=dict(defs=dict(NCYC=3, NPRIM=2, NPRIM5=1, NKEYS=2), symx=dict(shards=16, **{"max-wall": 3000, "shard-depth": 3})),
     reach=["end", "two_ticks", "gap_then_tick", "key_removed", "child_only_tick", "empty_structural_tick", "class_empty_delta_on_valid_collection"],
     bounds=_GRAPH_BOUNDS,
     outside=_OUTSIDE + "; sparse (absolute-time) recording and replay with a recordable_id; compare; the record / replay operator front door (wire<stdlib::record>)",
@@ -51,7 +51,7 @@ reg("C20",
 reg("C20",
     name="C20_graph_long", src="harness/C20_graph.cpp", tiers=("thorough",),
     anchor_files=_GRAPH_ANCHORS,
-    thorough=dict(defs=dict(NCYC=4, NPRIM=1, NPRIM5=1, NKEYS=2), symx=dict(shards=16, **{"max-wall": 3000, "shard-depth": 10})),
+    thorough=dict(defs=dict(NCYC=4, NPRIM=1, NPRIM5=1, NKEYS=2), symx=dict(shards=16, **{"max-wall": 3000, "shard-depth": 3})),
     reach=["end", "two_ticks", "gap_then_tick", "key_removed", "child_only_tick"],
     bounds="as C20_graph with 4 cycles and one key-set primitive per collection per cycle",
     outside=_OUTSIDE,
